@@ -24,7 +24,7 @@
    so that relocation can be stated (PIPE_relocate); no function reads it.
 
    Out of scope (absent from the syntax; other properties cover them): patches (SMP, JSON-6902), images, replicas,
-   replacements, vars, components, `configurations:`/`crds:`, helm, external plugins, `generatorOptions:`, file /
+   replacements, vars, components, `configurations:`/`crds:`, helm, external plugins, `immutable`, file /
    env sources and binary (non UTF-8) values of generators, `buildMetadata`, custom openapi schemas, `kind: List`
    documents, the local-config annotation (IgnoreLocal), documents that already carry internal.config.kubernetes.io
    build annotations.  Definitions only; proofs are in Res/PipelineProofs.v. *)
@@ -51,8 +51,15 @@ Record pgen := mkPGen {
   pg_disable_hash : bool              (* options.disableNameSuffixHash *)
 }.
 
+(* generatorOptions: of a kustomization file *)
+Record pgopts := mkPGopts {
+  go_labels : pairs;
+  go_annos : pairs;
+  go_disable_hash : bool
+}.
+
 (* the directives of one kustomization file *)
-Record pdirs := mkPDirs {
+Record pdirs := mkPDirsG {
   pd_ns : string;                             (* namespace: *)
   pd_prefix : string;                         (* namePrefix: *)
   pd_suffix : string;                         (* nameSuffix: *)
@@ -60,8 +67,12 @@ Record pdirs := mkPDirs {
   pd_common_labels : pairs;                   (* commonLabels: *)
   pd_common_annos : pairs;                    (* commonAnnotations: *)
   pd_cmgens : list pgen;                      (* configMapGenerator: *)
-  pd_secgens : list pgen                      (* secretGenerator: *)
+  pd_secgens : list pgen;                     (* secretGenerator: *)
+  pd_genopts : option pgopts                  (* generatorOptions: (None: absent) *)
 }.
+
+(* a kustomization file without generatorOptions *)
+Definition mkPDirs ns p s l cl ca cm sec : pdirs := mkPDirsG ns p s l cl ca cm sec None.
 
 Inductive ptree :=
 | PFile (docs : list node)                                (* a resource file: its documents, in order *)
@@ -158,6 +169,20 @@ Section Pipeline.
   Definition gen_resource (secret : bool) (g : pgen) : res resource :=
     do n <- gen_node secret g;
     Ok (mkRes n None None None None None (negb (pg_has_opts g && pg_disable_hash g))).
+
+  (* types.MergeGlobalOptionsIntoLocal: local entries win, global entries fill in missing keys, the hash suffix is
+     disabled when either side says so *)
+  Definition merge_pairs (l g : pairs) : pairs :=
+    (l ++ filter (fun kv => negb (str_in (fst kv) (map fst l))) g)%list.
+  Definition merge_genopts (go : option pgopts) (g : pgen) : pgen :=
+    match go with
+    | None => g
+    | Some o =>
+        mkPGen (pg_name g) (pg_ns g) (pg_behavior g) (pg_literals g) (pg_type g) true
+               (merge_pairs (if pg_has_opts g then pg_labels g else []) (go_labels o))
+               (merge_pairs (if pg_has_opts g then pg_annos g else []) (go_annos o))
+               ((pg_has_opts g && pg_disable_hash g) || go_disable_hash o)
+    end.
 
   (* ----- resWrangler.appendReplaceOrMerge ----- *)
 
@@ -274,21 +299,22 @@ Section Pipeline.
 
   (* runGenerators: every configMapGenerator entry, then every secretGenerator entry (generated order),
      each absorbed in turn *)
-  Fixpoint run_gens (secret : bool) (gens : list pgen) (m : list resource) : res (list resource) :=
+  Fixpoint run_gens (go : option pgopts) (secret : bool) (gens : list pgen) (m : list resource)
+    : res (list resource) :=
     match gens with
     | [] => Ok m
     | g :: t =>
-        do r <- gen_resource secret g;
+        do r <- gen_resource secret (merge_genopts go g);
         do m' <- absorb m (Generators.new_behavior (pg_behavior g)) r;
-        run_gens secret t m'
+        run_gens go secret t m'
     end.
 
   Fixpoint run_generator_kinds (kinds : list string) (d : pdirs) (m : list resource) : res (list resource) :=
     match kinds with
     | [] => Ok m
     | k :: t =>
-        do m' <- (if String.eqb k "ConfigMapGenerator" then run_gens false (pd_cmgens d) m
-                  else if String.eqb k "SecretGenerator" then run_gens true (pd_secgens d) m
+        do m' <- (if String.eqb k "ConfigMapGenerator" then run_gens (pd_genopts d) false (pd_cmgens d) m
+                  else if String.eqb k "SecretGenerator" then run_gens (pd_genopts d) true (pd_secgens d) m
                   else Ok m);
         run_generator_kinds t d m'
     end.
@@ -369,7 +395,8 @@ Section Pipeline.
   Definition dirs_empty (d : pdirs) : bool :=
     String.eqb (pd_ns d) "" && String.eqb (pd_prefix d) "" && String.eqb (pd_suffix d) "" &&
     match pd_labels d, pd_common_labels d, pd_common_annos d with [], [], [] => true | _, _, _ => false end &&
-    match pd_cmgens d, pd_secgens d with [], [] => true | _, _ => false end.
+    match pd_cmgens d, pd_secgens d with [], [] => true | _, _ => false end &&
+    match pd_genopts d with None => true | Some _ => false end.
   Definition is_empty_kust (d : pdirs) (ents : list ptree) : bool :=
     match ents with [] => dirs_empty d | _ => false end.
 
